@@ -253,6 +253,23 @@ func (e *benv) expr(n ast.Expr) bex {
 			a := e.expr(v.X)
 			return e.combine([]bex{a}, func(s []string) string { return "(let '(_, _, _, fr_) := " + s[0] + " in fr_)" })
 		}
+		if bkind(e.x.info.TypeOf(v.X)) == "osetting" && v.Sel.Name == "DataType" {
+			// promoted from the embedded DataIdentifier
+			a := e.expr(v.X)
+			return e.combine([]bex{a}, func(s []string) string { return "(let '(dt_, _, _, _) := " + s[0] + " in dt_)" })
+		}
+		if bkind(e.x.info.TypeOf(v.X)) == "osetting" && v.Sel.Name == "DataIdentifier" {
+			a := e.expr(v.X)
+			return e.combine([]bex{a}, func(s []string) string { return "(let '(dt_, cs_, pr_, _) := " + s[0] + " in (dt_, cs_, pr_))" })
+		}
+		if bkind(e.x.info.TypeOf(v.X)) == "dataid" {
+			pat := map[string]string{"DataType": "(let '(dt_, _, _) := %s in dt_)", "CoordinateSystem": "(let '(_, cs_, _) := %s in cs_)",
+				"Precision": "(let '(_, _, pr_) := %s in pr_)"}[v.Sel.Name]
+			if pat != "" {
+				a := e.expr(v.X)
+				return e.combine([]bex{a}, func(s []string) string { return fmt.Sprintf(pat, s[0]) })
+			}
+		}
 		if pkg, ok := v.X.(*ast.Ident); ok && pkg.Name == "io" && v.Sel.Name == "EOF" {
 			return bex{"(Some (-1))", true}
 		}
@@ -476,6 +493,13 @@ func (e *benv) expr(n ast.Expr) bex {
 		if e.extern != nil {
 			if t, ok := e.extern[exprText(v)]; ok {
 				return t
+			}
+			// measurement.MarshalMTData2Packet(id) on a parameter of interface type: the encoder is a parameter
+			if sel, ok := v.Fun.(*ast.SelectorExpr); ok && sel.Sel.Name == "MarshalMTData2Packet" && len(v.Args) == 1 {
+				if id, ok := sel.X.(*ast.Ident); ok && e.vars[id.Name] == "md_marshal" {
+					a := e.expr(v.Args[0])
+					return e.combine([]bex{a}, func(s []string) string { return "(md_marshal " + s[0] + ")" })
+				}
 			}
 			// data.UnmarshalMTData2Packet(x) on the value MeasurementData() returned
 			if sel, ok := v.Fun.(*ast.SelectorExpr); ok && sel.Sel.Name == "UnmarshalMTData2Packet" && len(v.Args) == 1 {
@@ -1302,7 +1326,10 @@ func (e *benv) block(stmts []ast.Stmt, ret func([]ast.Expr) string, cont func() 
 		}
 		e.vars[ki.Name] = "v_" + ki.Name
 		e.vars[vi.Name] = "v_" + vi.Name
+		savedCont := e.loopCont
+		e.loopCont = func() string { return "Val " + tupleR() }
 		body := e.block(s.Body.List, func([]ast.Expr) string { return e.bad(s, "return inside a loop") }, func() string { return "Val " + tupleR() })
+		e.loopCont = savedCont
 		delete(e.vars, ki.Name)
 		delete(e.vars, vi.Name)
 		st := e.tmp()
@@ -1525,7 +1552,7 @@ func (x *xl) clientFns(w *bytes.Buffer) {
 		known[bfnName(sp.recv, sp.name)] = true
 	}
 	stateFns := map[string]string{}
-	for _, name := range []string{"Receive", "ScanMeasurementData", "receiveUntil"} {
+	for _, name := range []string{"Receive", "ScanMeasurementData", "receiveUntil", "MessageIdentifier", "RawPacket", "DataType"} {
 		item := "client method " + name
 		fd := x.findFunc("Client", name)
 		coqName := "g_Client_" + name
@@ -1608,6 +1635,9 @@ func (x *xl) clientFns(w *bytes.Buffer) {
 		}
 		params := "(sc_scan : bool) (sc_bytes : bytes) (sc_err : option Z)"
 		pass := "sc_scan sc_bytes sc_err"
+		if name == "MessageIdentifier" || name == "RawPacket" || name == "DataType" {
+			params, pass = "", ""
+		}
 		if name == "ScanMeasurementData" {
 			params = "(md_is_nil : bytes -> bool) (md_unmarshal : bytes -> bytes -> option Z)"
 			pass = "md_is_nil md_unmarshal"
